@@ -9,7 +9,7 @@ corr-2      model bidder+decoder vs the real uu read filter, on the MODEL's enco
 spec        every filter {gzip,bzip2,xz,lzma,lzip,zstd,lz4,compress,uuencode,b64encode}, stacks <= 3,
             options, write/read chunkings: recovered bytes == input, reader filter codes == writer
             filter codes, two-member concatenation decodes to the concatenation (real code only)."""
-import os, json, base64, binascii, resource
+import os, json, base64, binascii, resource, time
 import vlib
 from vlib import vfmt, vparse
 
@@ -313,6 +313,8 @@ def rt_oracle(case_line, impl_line):
             return (cls[0], cls[1] + " [observed: %s]" % msg)
         return ("C03:%s:%s" % (stack, kind), "%s through [%s] options '%s', %d bytes, read mode %d: %s" %
                 (what, stack, allopts, n, rm, msg))
+    if optrc != 0 and cls is not None and cls[0] == "C03:uu:name-not-printable-ascii":
+        return None          # a writer that refuses such a name makes the option invalid: outside the statement
     if optrc != 0:
         return hit("option-rejected", "archive_write_set_options returned %d for a valid option string" % optrc)
     if wrc != 0:
@@ -616,9 +618,13 @@ def rt_nontrivial(case_line):
 
 def run(rep):
     raise_stack_limit()
+    t0 = time.time()
+    phase = {}
     pr = vlib.proof_part(rep, "C03", translators=["gen_codec"])
+    phase["coq"] = round(time.time() - t0, 1)
     runner = vlib.build_runner("codec")
     exe = vlib.compile_harness("codec", "asan")
+    phase["build"] = round(time.time() - t0, 1)
     quick = rep.tier == "quick"
     corpus = vlib.load_corpus("C03")
     # ---- corr-1: writers
@@ -627,12 +633,14 @@ def run(rep):
     enc_cases = [c for c in corpus if c.startswith("(0 ")]
     enc_cases += [gen_enc(r, rep.tier) for _ in range(n_enc)] + [gen_enc(r, rep.tier, big=True) for _ in range(12 if quick else 120)]
     st1 = vlib.correspond(rep, "codec-enc", runner, exe, enc_cases, oracle=enc_oracle)
+    phase["corr1"] = round(time.time() - t0, 1)
     # ---- corr-2: uu read filter on the model writer's output (+ mutated lines)
     r = vlib.rng(rep.seed, "C03/dec")
     dec_cases = [c for c in corpus if c.startswith("(1 ")]
     for c, m in zip(enc_cases, model_lines(runner, enc_cases, "codec-enc-model")):
         dec_cases += gen_dec_from_model(r, c, m, rep.tier)
     st2 = vlib.correspond(rep, "codec-dec", runner, exe, dec_cases, oracle=dec_oracle)
+    phase["corr2"] = round(time.time() - t0, 1)
     # ---- spec level: every filter, stacks, options, chunkings, concatenation (real code only)
     r = vlib.rng(rep.seed, "C03/spec")
     spec_cases = [c for c in corpus if c.startswith("(2 ") or c.startswith("(3 ")]
@@ -641,6 +649,7 @@ def run(rep):
     spec_cases += [gen_rt(r, rep.tier) for _ in range(n_rt)]
     spec_cases += [gen_concat(r, rep.tier) for _ in range(n_rt // 3)]
     st3 = run_impl_only(rep, "codec-spec", exe, spec_cases, rt_oracle, timeout=1500 if quick else 20000)
+    phase["spec"] = round(time.time() - t0, 1)
     allc = enc_cases + dec_cases + spec_cases
     rep.coverage.update(
         evaluations=len(allc),
@@ -660,7 +669,7 @@ def run(rep):
              "payload written or read in several pieces (both members non-empty for concatenation)",
         samples=[enc_cases[0][:300], dec_cases[0][:300], spec_cases[-1][:300], spec_cases[len(spec_cases) // 2][:300]],
         traces_validated_against_impl=st1["agree"] + st2["agree"],
-        correspondence=[st1, st2], spec=st3)
+        correspondence=[st1, st2], spec=st3, phase_end_secs=phase)
     rep.assumptions += [
         "the client write callback accepts every block whole (the model of archive_write_client_write assumes it)",
         "uu decoder model is a whole-stream model: window (read block) dependent behaviour of uudecode_filter_read is not "
